@@ -58,6 +58,44 @@ def run(pid, tier, seed, replay):
             vlib.run([drv, "gen", mode, str(n), str(seed * 100 + i), out], timeout=6000)
             runs.append((mode, judge, out))
     tot = {"generated": 0, "distinct": 0}
+    exhaustive = False
+    if not replay and pid in ("C04", "C08", "C18"):
+        # the bounded universe of node shapes, enumerated completely by TLC, exported and fed to the real Spec.Step
+        cfg = "MC_Step.cfg" if tier == "quick" else "MC_Step_full.cfg"
+        d = vlib.fresh_dir(pid, "mc_step")
+        r = vlib.tlc_ok(d, "MC_Step.tla", cfg, workers=1, timeout=3000, heap="8g")
+        tot["generated"] += r["generated"]
+        tot["distinct"] += r["distinct"]
+        exp = os.path.join(d, "export.ndjson")
+        log("  MC_Step (%s): %d step cases enumerated, sanity theorems of the step relation hold (%.0fs)" % (cfg, r["distinct"], r["wall"]))
+        # drive in parallel shards
+        import concurrent.futures as cf
+        lines = open(exp).read().splitlines()
+        nsh = 16
+
+        def shard(i):
+            part = lines[i::nsh]
+            if not part:
+                return None
+            inp = os.path.join(wd, "univ_in_%02d.ndjson" % i)
+            open(inp, "w").write("\n".join(part) + "\n")
+            o = os.path.join(wd, "univ_out_%02d.ndjson" % i)
+            vlib.run([drv, "univ", inp, o], timeout=6000)
+            return o
+        with cf.ThreadPoolExecutor(max_workers=nsh) as ex:
+            outs = [o for o in ex.map(shard, range(nsh)) if o]
+        up = os.path.join(wd, "univ.ndjson")
+        with open(up, "w") as f:
+            for o in outs:
+                f.write(open(o).read())
+        runs.insert(0, ("univ", "Step", up))
+        exhaustive = tier == "quick"
+    if pid == "C07" and not replay:
+        # the document half of C07: loading and compiling any JSON or YAML document yields a specification or an error
+        ldrv = vlib.build_driver("loaderdrv", wd)
+        out = os.path.join(wd, "malformed.ndjson")
+        vlib.run([ldrv, "malformed", str(300 if tier == "quick" else 5000), str(seed), out], timeout=6000)
+        runs.append(("documents", "Loader", out))
     stats_all, judged, samples = {}, 0, []
     for name, judge, path in runs:
         jd = vlib.fresh_dir(pid, "judge_" + name)
@@ -77,9 +115,9 @@ def run(pid, tier, seed, replay):
             for i, line in enumerate(f):
                 if i in (0, 7) and len(samples) < 4:
                     c = json.loads(line)
-                    o = c.get("out") or {"runA": c.get("runA"), "saveAt": c.get("saveAt")}
-                    samples.append({"source": name, "inputs": c.get("raw")[:1500],
-                                    "observed": {k: o[k] for k in o if k in ("outcome", "to", "consumed", "emitted", "cls", "stopped", "remaining", "runA", "saveAt")}})
+                    o = c.get("out") or {"runA": c.get("runA"), "saveAt": c.get("saveAt"), "doc": c.get("doc"), "results": c.get("results")}
+                    samples.append({"source": name, "inputs": (c.get("raw") or "")[:1500],
+                                    "observed": {k: o[k] for k in o if k in ("outcome", "to", "consumed", "emitted", "cls", "stopped", "remaining", "runA", "saveAt", "doc", "results")}})
         log("  judged %s with Trace_%s: %d cases, %d rejected (all properties)" % (name, judge, t["lines"], len(bad)))
     rc = rep.finish()
     nontriv = sum(v for k, v in stats_all.items() if k.split(".")[1] in ("moved", "strides", "applies"))
@@ -89,7 +127,8 @@ def run(pid, tier, seed, replay):
         "evaluations": judged, "distinct_nontrivial": nontriv,
         "rule": "seeded generation of (spec, state, message(s), control) over the action language; every call of the real Spec.Step/Spec.Walk "
                 "is recorded and judged by TLC against StepOutcomes / the walk predicates; non-trivial = steps that moved / strides taken",
-        "judge_stats": stats_all, "exhaustive": False,
+        "judge_stats": stats_all, "exhaustive": bool(exhaustive),
+        "exhaustive_scope": "MC_Step universe (node shapes with <=1 branch in quick; <=2 branches, every 4th case exported, in thorough) enumerated by TLC and every exported case driven; generated cases are a seeded sample" if pid in ("C04", "C08", "C18") else "seeded sample",
         "known_findings_hit": {k: v["count"] for k, v in rep.known.items()},
     }, ASSUME[pid], time.time() - t0, len(rep.violations))
     return rc
